@@ -20,6 +20,7 @@
 //@harness c20_cmp_numeric_trans_ffi complete "kind triple ffi (i=Int, f=Float incl. NaN, +-0, +-inf), all 64-bit payloads: a<=b & b<=c => a<=c; a~b & b~c => a~c"
 //@harness c20_cmp_numeric_trans_fff complete "kind triple fff (i=Int, f=Float incl. NaN, +-0, +-inf), all 64-bit payloads: a<=b & b<=c => a<=c; a~b & b~c => a~c"
 //@harness c20_cmp_scalar_pairs complete "Null, Bool, Int, Float, DateTime, NodeId, ExternalId, EdgeKey in every kind pair with symbolic payloads: antisymmetry/totality; different rank classes ordered by rank alone"
+//@harness c20_cmp_reference_scalar complete "the comparator EQUALS the reference order inside each scalar class, all payloads: Bool false<true; Int and DateTime by value; Float by IEEE order with -0.0 ~ +0.0 and every NaN (either sign bit) equal to every other NaN and greater than every number; NodeId/ExternalId by their numeric id as u64 in all four kind pairs; EdgeKey by (src, rel, dst); Null greater than everything"
 //@harness c20_cmp_class_trans complete "transitivity inside each non-numeric rank class (Bool, DateTime, NodeId/ExternalId mixed, EdgeKey), symbolic payloads"
 #[cfg(kani)]
 mod verif_kani_c20 {
@@ -153,5 +154,36 @@ mod verif_kani_c20 {
             class += 1;
         }
         kani::cover!(true, "reach: end");
+    }
+    // The total-preorder laws above are what sort_by needs; the property also fixes WHICH order.  A
+    // comparator that is a consistent total preorder but not this one (e.g. ids compared after a
+    // truncating cast) sorts "correctly" by the wrong order: pinned down here.
+    #[kani::proof]
+    fn c20_cmp_reference_scalar() {
+        let (p, q): (u64, u64) = (kani::any(), kani::any());
+        // Bool
+        let (a, b) = (p & 1 == 1, q & 1 == 1);
+        assert!(order_compare(&Value::Bool(a), &Value::Bool(b)) == a.cmp(&b), "C20.cmp.ref.bool");
+        // Int, DateTime
+        assert!(order_compare(&Value::Int(p as i64), &Value::Int(q as i64)) == (p as i64).cmp(&(q as i64)), "C20.cmp.ref.int");
+        assert!(order_compare(&Value::DateTime(p as i64), &Value::DateTime(q as i64)) == (p as i64).cmp(&(q as i64)), "C20.cmp.ref.datetime");
+        // Float
+        let (x, y) = (f64::from_bits(p), f64::from_bits(q));
+        let want = if x.is_nan() && y.is_nan() { Ordering::Equal } else if x.is_nan() { Ordering::Greater } else if y.is_nan() { Ordering::Less }
+                   else if x < y { Ordering::Less } else if x > y { Ordering::Greater } else { Ordering::Equal };
+        assert!(order_compare(&Value::Float(x), &Value::Float(y)) == want, "C20.cmp.ref.float");
+        // node identities: by numeric id as u64, whatever the kind
+        assert!(order_compare(&Value::NodeId(p as u32), &Value::NodeId(q as u32)) == (p as u32).cmp(&(q as u32)), "C20.cmp.ref.nodeid");
+        assert!(order_compare(&Value::ExternalId(p), &Value::ExternalId(q)) == p.cmp(&q), "C20.cmp.ref.externalid");
+        assert!(order_compare(&Value::NodeId(p as u32), &Value::ExternalId(q)) == ((p as u32) as u64).cmp(&q), "C20.cmp.ref.nodeid_externalid");
+        assert!(order_compare(&Value::ExternalId(p), &Value::NodeId(q as u32)) == p.cmp(&((q as u32) as u64)), "C20.cmp.ref.externalid_nodeid");
+        // relationships: (src, rel, dst)
+        let (e1, e2) = (EdgeKey { src: p as u32, rel: (p >> 32) as u32, dst: (p >> 16) as u32 }, EdgeKey { src: q as u32, rel: (q >> 32) as u32, dst: (q >> 16) as u32 });
+        assert!(order_compare(&Value::EdgeKey(e1), &Value::EdgeKey(e2)) == (e1.src, e1.rel, e1.dst).cmp(&(e2.src, e2.rel, e2.dst)), "C20.cmp.ref.edgekey");
+        // null is the greatest value
+        assert!(order_compare(&Value::Null, &Value::Int(p as i64)) == Ordering::Greater && order_compare(&Value::Float(x), &Value::Null) == Ordering::Less
+             && order_compare(&Value::Null, &Value::Null) == Ordering::Equal, "C20.cmp.ref.null_last");
+        kani::cover!(x.is_nan() && (p >> 63) == 1, "reach: NaN with the sign bit set");
+        kani::cover!(p > u32::MAX as u64, "reach: external id above u32");
     }
 }
